@@ -1129,24 +1129,47 @@ class Interp:
                 self.enter_cm(run, cm, item.context_expr)
                 entered.append(("cm", cm))
                 bound = cm
+                # a context manager written in the analysed code (NoLock, ...): its own __enter__ / __exit__ run, and a true result
+                # of __exit__ swallows the exception that leaves the block (Python semantics)
+                if isinstance(cm, Ref) and isinstance(run.cell(cm), HObj) and run.cell(cm).cls in self.index.classes:
+                    ent = self.class_lookup(run, run.cell(cm).cls, "__enter__")
+                    if isinstance(ent, Fn):
+                        bound = self.call(run, self.getattr(run, cm, "__enter__", item.context_expr), [], {}, item.context_expr)
+                    if isinstance(self.class_lookup(run, run.cell(cm).cls, "__exit__"), Fn):
+                        entered[-1] = ("usercm", cm)
             if item.optional_vars is not None:
                 self.assign(run, item.optional_vars, bound, env)
 
-        def leave():
+        def leave(exc=None):
+            swallowed = False
             for kind, cm in reversed(entered):
                 if kind == "cm":
                     self.exit_cm(run, cm, st)
+                elif kind == "usercm":
+                    self.exit_cm(run, cm, st)
+                    if exc is None or swallowed:
+                        a = [NONE, NONE, NONE]
+                    else:
+                        cn = self.exc_class_name(run, exc)
+                        a = [Cls(cn) if cn in self.index.classes else Ext(cn or "?"), exc, NONE]
+                    r = self.call(run, self.getattr(run, cm, "__exit__", st), a, {}, st)
+                    if exc is not None and not swallowed and self.truth(run, r, st):
+                        swallowed = True
                 elif kind == "closing":
                     obj = hof.parts(cm)[1][0]
                     self.call(run, self.getattr(run, obj, "close", st), [], {}, st)
                 elif kind == "exitstack":
                     hof.unwind_exitstack(self, run, cm, st)
+            return swallowed
 
         try:
             self.exec_block(run, st.body, env)
         except RaiseSig as r:
-            leave()
+            ent2 = list(entered)
+            swallowed = leave(r.exc)
             entered.clear()
+            if swallowed:
+                return
             if suppress and any(self.exc_matches_value(run, r.exc, c) for c in suppress):
                 return
             raise
